@@ -81,9 +81,9 @@ def run(res, tier, seed, shard, nshards):
                             modes = [(0, 0), (0, 1), (1, 0), (1, 1)]
                         for pf, skip in modes:
                             cases.append(("one", is_text, payload, comp, gaps, pf, skip))
-    for i in range(400 if tier == "quick" else 6000):
+    for i in range(400 if tier == "quick" else 40000):
         cases.append(("multi", i))
-    for i in range(60 if tier == "quick" else 1200):
+    for i in range(60 if tier == "quick" else 6000):
         cases.append(("large", i))
 
     def scen():
